@@ -1,16 +1,17 @@
 package main
 
 func kernels() []kernel {
-	expVars := map[string]string{"cacheEntry.E": "e", "now": "now"}
-	mmVarsRead := map[string]string{"found": "found", "bytes.Equal(cacheEntry.K, key)": "keyEq"}
-	mmVarsDel := map[string]string{"found": "found", "bytes.Equal(cachedEntry.K, key)": "keyEq"}
-	delVars := map[string]string{"v.E": "e", "cacheEntry.E": "e", "beforeTS": "before"}
+	// entry fields are recognised whatever the variable holding the entry is called
+	expVars := map[string]string{`re:\w+\.E`: "e", "now": "now"}
+	mmVarsRead := map[string]string{"found": "found", `re:bytes\.Equal\(\w+\.K, \w+\)`: "keyEq"}
+	mmVarsDel := map[string]string{"found": "found", `re:bytes\.Equal\(\w+\.K, \w+\)`: "keyEq"}
+	delVars := map[string]string{`re:\w+\.E`: "e", "beforeTS": "before"}
 	fresh := map[string]string{"f.config.MaxStaleness": "maxStaleness", "time.Since(errExpired.ExpiredAt())": "since"}
-	sync := map[string]string{"f.config.SyncUpdate": "syncUpdate", "err != nil": "errNonNil"}
+	sync := map[string]string{"f.config.SyncUpdate": "syncUpdate", "err != nil": "errNonNil", "err == nil": "(!errNonNil)"}
 	ec := map[string]string{"f.config.FailedUpdateTTL": "failedUpdateTTL", "cfg.FailedUpdateTTL": "failedUpdateTTL"}
 	return []kernel{
-		{name: "isExpired", file: "trait.go", recv: "Trait", fn: "PrepareRead", kind: "ifcond", must: []string{"cacheEntry.E", "now"}, vars: expVars, sig: "(e now : Int) : Bool"},
-		{name: "isExpiredOf", file: "trait_go1.18.go", recv: "TraitOf", fn: "PrepareRead", kind: "ifcond", must: []string{"cacheEntry.E", "now"}, vars: expVars, sig: "(e now : Int) : Bool"},
+		{name: "isExpired", file: "trait.go", recv: "Trait", fn: "PrepareRead", kind: "ifcond", must: []string{".E", "now"}, vars: expVars, sig: "(e now : Int) : Bool"},
+		{name: "isExpiredOf", file: "trait_go1.18.go", recv: "TraitOf", fn: "PrepareRead", kind: "ifcond", must: []string{".E", "now"}, vars: expVars, sig: "(e now : Int) : Bool"},
 		{name: "keyMismatchRead", file: "sharded_map.go", recv: "shardedMap", fn: "Read", kind: "ifcond", must: []string{"bytes.Equal"}, vars: mmVarsRead, sig: "(found keyEq : Bool) : Bool"},
 		{name: "keyMismatchDelete", file: "sharded_map.go", recv: "shardedMap", fn: "Delete", kind: "ifcond", must: []string{"bytes.Equal"}, vars: mmVarsDel, sig: "(found keyEq : Bool) : Bool"},
 		{name: "keyMismatchReadOf", file: "sharded_map_go1.18.go", recv: "shardedMapOf", fn: "Read", kind: "ifcond", must: []string{"bytes.Equal"}, vars: mmVarsRead, sig: "(found keyEq : Bool) : Bool"},
@@ -25,10 +26,10 @@ func kernels() []kernel {
 		{name: "expireAtNonZero", file: "trait.go", recv: "Trait", fn: "expireAt", kind: "ifcond", must: []string{"ttl"}, vars: map[string]string{"ttl": "ttl"}, sig: "(ttl : Int) : Bool"},
 		{name: "scanEnabled", file: "trait.go", recv: "Trait", fn: "invokeCleanup", kind: "ifcond", must: []string{"c.DeleteExpired != nil"},
 			vars: map[string]string{"c.DeleteExpired != nil": "hasDeleteExpired", "c.Config.TimeToLive": "cfgTTL", "atomic.LoadInt64(&c.expirationsSet)": "expirationsSet"},
-			sig: "(hasDeleteExpired : Bool) (cfgTTL expirationsSet : Int) : Bool"},
+			sig:  "(hasDeleteExpired : Bool) (cfgTTL expirationsSet : Int) : Bool"},
 		{name: "evictTrigger", file: "trait.go", recv: "Trait", fn: "invokeCleanup", kind: "ifcond", must: []string{"EvictionNeeded"},
 			vars: map[string]string{"ho": "ho", "so": "so", "co": "co", "c.Config.EvictionNeeded != nil": "hasNeeded", "c.Config.EvictionNeeded()": "needed"},
-			sig: "(ho so co hasNeeded needed : Bool) : Bool"},
+			sig:  "(ho so co hasNeeded needed : Bool) : Bool"},
 		{name: "countOverflowOff", file: "trait.go", recv: "Trait", fn: "countOverflow", kind: "ifcond", must: []string{"CountSoftLimit"},
 			vars: map[string]string{"c.Config.CountSoftLimit": "limit", "c.Len == nil": "lenNil"}, sig: "(limit : Int) (lenNil : Bool) : Bool"},
 		{name: "countOver", file: "trait.go", recv: "Trait", fn: "countOverflow", kind: "return", must: []string{"cnt", "CountSoftLimit"},
@@ -37,8 +38,8 @@ func kernels() []kernel {
 		{name: "withTTLShouldUpdate", file: "context.go", fn: "WithTTL", kind: "ifcond", must: []string{"*existing"}, vars: map[string]string{"*existing": "existing", "ttl": "ttl"}, sig: "(existing ttl : Int) : Bool"},
 		{name: "freshEnoughCond", file: "failover.go", recv: "Failover", fn: "valueFromError", kind: "ifcond", must: []string{"MaxStaleness"}, vars: fresh, sig: "(maxStaleness since : Int) : Bool"},
 		{name: "freshEnoughCondOf", file: "failover_go1.18.go", recv: "FailoverOf", fn: "freshEnough", kind: "ifcond", must: []string{"MaxStaleness"}, vars: fresh, sig: "(maxStaleness since : Int) : Bool"},
-		{name: "syncUpdateCond", file: "failover.go", recv: "Failover", fn: "ctxSync", kind: "assign", lhs: "syncUpdate", vars: sync, sig: "(syncUpdate errNonNil : Bool) : Bool"},
-		{name: "syncUpdateCondOf", file: "failover_go1.18.go", recv: "FailoverOf", fn: "ctxSync", kind: "assign", lhs: "syncUpdate", vars: sync, sig: "(syncUpdate errNonNil : Bool) : Bool"},
+		{name: "syncUpdateCond", file: "failover.go", recv: "Failover", fn: "ctxSync", kind: "assign", lhs: "syncUpdate", must: []string{"SyncUpdate"}, trueMeansReturnsTrue: true, vars: sync, sig: "(syncUpdate errNonNil : Bool) : Bool"},
+		{name: "syncUpdateCondOf", file: "failover_go1.18.go", recv: "FailoverOf", fn: "ctxSync", kind: "assign", lhs: "syncUpdate", must: []string{"SyncUpdate"}, trueMeansReturnsTrue: true, vars: sync, sig: "(syncUpdate errNonNil : Bool) : Bool"},
 		{name: "fallbackCond", file: "failover.go", recv: "Failover", fn: "Get", kind: "ifcond", must: []string{"FailHard"},
 			vars: map[string]string{"value != nil": "haveStale", "f.config.FailHard": "failHard"}, sig: "(haveStale failHard : Bool) : Bool"},
 		{name: "fallbackCondOf", file: "failover_go1.18.go", recv: "FailoverOf", fn: "Get", kind: "ifcond", must: []string{"FailHard"},
